@@ -34,10 +34,11 @@ def main():
     ap.add_argument("worktree")
     ap.add_argument("--features", default="")
     ap.add_argument("--name")
+    ap.add_argument("--seed-dir", default="", help="directory holding patch.diff / demo.rs / NOTES.md (default: <worktree>/_seed)")
     ap.add_argument("--demo-args", default="", help="raw extra cargo arguments for the demonstration, e.g. '--no-default-features --features tokio-runtime,mmap'")
     a = ap.parse_args()
     name = a.name or a.prop
-    seed = os.path.join(a.worktree, "_seed")
+    seed = a.seed_dir or os.path.join(a.worktree, "_seed")
     patch = os.path.join(seed, "patch.diff")
     demo_src = os.path.join(seed, "demo.rs")
     root = tempfile.mkdtemp(prefix="cacache-seed-%s-" % name, dir="/tmp")
